@@ -268,6 +268,22 @@ func main() {
 	all := dposkit.Keys("arb", 36)
 
 	if r.Replay != "" {
+		var probe struct {
+			Kind string `json:"kind"`
+		}
+		r.LoadReplay(&probe)
+		if probe.Kind == "nchange" {
+			var c nchangeCase
+			sig := r.LoadReplay(&c)
+			ms := map[int][]state.ArbiterMember{c.N1: members(c.N1, all), c.N2: members(c.N2, all)}
+			long, fresh := runNChange(&c, all, ms)
+			fmt.Printf("replay %s\n  %s, %d -> %d arbiters, start offset %d, evaluate at %v, reset=%v, evaluate at %v\n  long-lived view: offset %d remainder %v onDuty %v\n  fresh view:      offset %d remainder %v onDuty %v\n",
+				sig, verName(c.Ver), c.N1, c.N2, c.Offset, time.Duration(c.T1), c.Reset, time.Duration(c.T2), long.Offset, long.Rem, long.OnDuty, fresh.Offset, fresh.Rem, fresh.OnDuty)
+			var sk sink
+			checkNChange(&sk, &c, all, ms)
+			sk.mergeInto(r)
+			finish(evid.Coverage{})
+		}
 		var c caseT
 		sig := r.LoadReplay(&c)
 		w := newWorld(c.N, all)
@@ -379,14 +395,18 @@ func main() {
 		samples.Add(map[string]interface{}{"entry": verName(sc.Ver), "arbiters": sc.N, "start_offset": sc.Offset, "evaluate_at_ns": sc.TimesNs,
 			"one_shot": fmt.Sprintf("offset %d remainder %v", one.Offset, one.Rem), "chained": fmt.Sprintf("offset %d remainder %v", ch.Offset, ch.Rem)})
 	}
+	ncCases, ncMoved, ncSample := nchangeFamily(r, ns, all, r.Pick(60, 150))
+	samples.Add(ncSample)
 	r.Assume = append(r.Assume,
 		"sign tolerance fixed at 5 s (the only value the node uses by default); arbiter list supplied by state.ArbitratorsMock (the view only reads its size and the on-duty key)",
 		"TryChangeView/TryChangeViewV1 (strict 'after' gate in front of the same computation) are not part of the verdict: at an instant exactly on a boundary the gate defers by design",
 		"elapsed times are non-negative and below 2^53 ns")
 	finish(evid.Coverage{
-		"evaluations":           ct.evals + ct.chains,
-		"distinct_nontrivial":   ct.bothAdvanced,
-		"rule":                  fmt.Sprintf("versions {ChangeView, ChangeViewV1} x arbiter counts %v x start offsets 0..3n x instants {1 s grid 0..%d s} ∪ {b-1ns,b,b+1ns for every boundary b of the first 2n+3 views under the one-shot and under the evaluate-at-every-boundary schedule, located by bisection on the real code}; polling schedules: one evaluation at T vs one intermediate evaluation at every earlier instant (thorough: also two intermediate evaluations over boundary instants + 7 s grid, first 150). non-trivial = chained schedules (all distinct) in which the intermediate evaluation moved the offset and the final evaluation moved it again", ns, gridS),
+		"evaluations":                                   ct.evals + ct.chains + 2*ncCases,
+		"distinct_nontrivial":                           ct.bothAdvanced + ncMoved,
+		"arbiter_count_change_cases":                    ncCases,
+		"arbiter_count_change_cases_offset_moved_after": ncMoved,
+		"rule":                  fmt.Sprintf("versions {ChangeView, ChangeViewV1} x arbiter counts %v x start offsets 0..3n x instants {1 s grid 0..%d s} ∪ {b-1ns,b,b+1ns for every boundary b of the first 2n+3 views under the one-shot and under the evaluate-at-every-boundary schedule, located by bisection on the real code}; polling schedules: one evaluation at T vs one intermediate evaluation at every earlier instant (thorough: also two intermediate evaluations over boundary instants + 7 s grid, first 150). non-trivial = chained schedules (all distinct) in which the intermediate evaluation moved the offset and the final evaluation moved it again. Family B (long-lived view across an arbiter-count change): both versions x every ordered pair n1 != n2 of the same counts x start offsets {0,1,n1-1,n1,n1+1,n2-1,n2,n2+1,2n1,3n1} x {no reset, ResetView + offset 0 at the change} x every pair t1 < t2 of {1 s grid 0..%d s} ∪ {boundary instants (up to 1200 s) of the first 6 views under n1 and under n2}: the view evaluated at t1 under n1 and at t2 under n2 vs a fresh view with the same offset/start time that only saw n2, evaluated at t2; non-trivial = cases whose post-change evaluation moved the offset", ns, gridS, r.Pick(60, 150)),
 		"exhaustive":            true,
 		"jobs":                  len(jobs),
 		"instants_total":        timePoints,
